@@ -82,5 +82,28 @@ theorem bad_fraction_rejected_before_any_write (v : ValId) (f : Dec) (w : World)
   unfold beforeValidatorSlashed slashValidator
   simp only [bind_apply, guardE_apply, hf, if_true]
 
+/-! ## the complete list of failure modes -/
+
+/-- for EVERY state and argument: when the callback fails, its error is one of these eleven — a bad fraction, a missing
+    redelegation record, or a failure mode of the keeper functions it is built from (no validator, unknown asset, no
+    delegation, bank shortfall, distribution response missing/mismatched, a negative share or coin amount, a zero
+    divisor); nothing else can go wrong (proof: AllianceProofs/FailModes, the judgment `Errs S m`) -/
+theorem callback_failure_modes (v : ValId) (f : Dec) (w : World) (e : Err) (h : (step (.slash v f) w).1 = .error e) :
+    e ∈ hookModes := (beforeValidatorSlashed_errs v f).run w e h
+
+/-- in every state where the redelegation stores agree (INV-R: every state of every history) the "record not found" mode
+    is excluded too: every index key the callback walks has its record -/
+theorem callback_failure_modes_in_reachable_states (v : ValId) (f : Dec) (w0 w : World) (h0 : RX w0) (hr : ReachR w0 w)
+    (e : Err) (h : (step (.slash v f) w).1 = .error e) : e ∈ hookModesReachable :=
+  slash_hook_failure_modes v f w (reach_rx w0 w h0 hr) e h
+
+/-- the lists, spelled out -/
+example : hookModes = [.err "invalid_fraction", .err "other", .err "no_validator", .err "unknown_asset", .err "no_delegation",
+    .err "insufficient_funds", .err "oracle_exhausted", .err "oracle_mismatch", .panic "neg_dec_coin", .panic "neg_coin",
+    .panic "div_zero"] := rfl
+example : hookModesReachable = [.err "invalid_fraction", .err "no_validator", .err "unknown_asset", .err "no_delegation",
+    .err "insufficient_funds", .err "oracle_exhausted", .err "oracle_mismatch", .panic "neg_dec_coin", .panic "neg_coin",
+    .panic "div_zero"] := rfl
+
 end C08
 end Alliance
